@@ -136,8 +136,8 @@ Proof.
   { apply keep_same_actors. unfold provide in Ep. inversion Ep; subst. reflexivity. }
   set (s2 := set_actors s1 (actors s1 ++ [new_actor t self r inst])).
   assert (K2 : keep s s2) by (eapply keep_trans; [exact K1|apply keep_append]).
-  destruct (lookup t (registry s2)).
-  - intros H; inversion H; subst. exact K2.
+  change (registry s2) with (registry s1) in *. destruct (lookup t (registry s1)).
+  - intros H; inversion H; subst. eapply keep_trans; [exact K1|apply keep_append].
   - intros H. eapply keep_trans; [|eapply keep_stop; exact H]. eapply keep_trans; [exact K2|].
     eapply keep_trans; [|apply keep_deliver_sys]. eapply keep_trans; [|apply keep_upd_actor; kp]. apply keep_set_registry.
 Qed.
